@@ -262,7 +262,7 @@ func (w *World) Anchors() *Anchors {
 				}
 				if n == "builtin.delete" && len(x.Common().Args) > 0 {
 					if fr, _, ok := loadedField(x.Common().Args[0]); ok {
-						if fr == a.ChStreams {
+						if fr == a.ChStreams && (a.ClientRemove == nil || callsCAS(a.ClientRemove)) {
 							a.ClientRemove = fn
 						}
 						if fr == a.SvStreams {
@@ -467,4 +467,15 @@ func ifaceMethodRole(m *types.Func) string {
 		}
 	}
 	return ""
+}
+
+// callsCAS: the function contains a CompareAndSwap (i.e. it is a finishing function, not a dedicated remover).
+func callsCAS(fn *ssa.Function) bool {
+	found := false
+	allInstrs(fn, func(in ssa.Instruction) {
+		if ci, ok := in.(ssa.CallInstruction); ok && strings.HasSuffix(calleeName(ci), ".CompareAndSwap") {
+			found = true
+		}
+	})
+	return found
 }
